@@ -419,6 +419,11 @@ impl Search {
 
             self.board.unmake_move();
 
+            // The search was cut short below this node: the score is a dummy, keep nothing derived from it
+            if !self.is_running() || self.limits_exceeded(start) {
+                return 0;
+            }
+
             // Move is too good, opponent will not allow the game to reach this position
             if score >= beta {
                 TRANSPOSITION_TABLE
